@@ -277,7 +277,7 @@ func runBridge(lim string, src, tgt []readEv, sw, tw []writeEv) string {
 		id := fmt.Sprintf("verif-tunnel-%d", bridgeSeq.Add(1))
 		br := sm.VerifStartBridge(id, "", sc, limitOf(lim))
 		br.SetTargetConnection(&tconn{c: tc})
-		deadline := time.Now().Add(5 * time.Second)
+		deadline := time.Now().Add(20 * time.Second)
 		returned := false
 		for time.Now().Before(deadline) {
 			if !sm.VerifHasBridge(id) {
@@ -521,6 +521,16 @@ func gen(out *vc.Out, r *vc.Rand, thorough bool) {
 				fmtReads("tgt", []readEv{{data: d3, err: "n"}, hold}, true)+" "+fmtWrites("sw", blk)+" "+fmtWrites("tw", nil))
 		}
 		out.Count("bridge:back-pressure")
+	}
+	// --- bridge with a LOW bandwidth limit and traffic in both directions at once: the two copy goroutines share
+	// one limiter, so a slice of one direction queues behind the other direction's reservation (several seconds of
+	// real waiting); nothing may be dropped and nobody may be closed because of the limit
+	{
+		big := func() []byte { return genData(r, 32768) }
+		src := []readEv{{data: big(), err: "n"}, {data: big(), err: "n"}, {data: nil, err: "n", after: 65536}}
+		tgt := []readEv{{data: big(), err: "n"}, {data: big(), err: "n"}, {data: nil, err: "n", after: 1 << 40}}
+		execCase(out, "bridge lim 16000 "+fmtReads("src", src, true)+" "+fmtReads("tgt", tgt, true)+" "+fmtWrites("sw", nil)+" "+fmtWrites("tw", nil))
+		out.Count("bridge:low-limit-both-directions")
 	}
 	// --- bridge: both directions concurrently, real lifecycle
 	brounds := 60
